@@ -154,6 +154,20 @@ def _monitor(spec, out0):
             wb["args"]["error_scaling"] = [p_ for p_ in (args.get("error_scaling") or []) if p_[0] != e] + [[e, 0]]
             if not wa["args"]["error_scaling"]:
                 wa["args"].pop("error_scaling")
+            if H(spec["sim"].get("reply_seed", 0), "scale0-safety") % 2 == 0:
+                # both requests also under the options that turn safety information (computed from the trusted, i.e. the
+                # non-ignored, elements) into constraints of the model
+                for w_ in (wa, wb):
+                    if w_["args"].get("k") and H(spec["sim"].get("reply_seed", 0), "scale0-tight-k") % 2 == 0:
+                        w_["args"]["k"] = max(1, w_["args"]["k"] - 1)       # tight: nothing is covered "for free" by a spare route
+                    oo_ = w_["args"].setdefault("optimization_options", {})
+                    if cname in models.DAG_CLASSES:
+                        oo_["optimize_with_safety_as_subpath_constraints"] = True
+                    else:
+                        oo_.pop("optimize_with_safety_as_subset_constraints", None)
+                        oo_.pop("optimize_with_max_safe_antichain_as_subset_constraints", None)
+                        oo_[["optimize_with_safety_as_subset_constraints", "optimize_with_max_safe_antichain_as_subset_constraints"][
+                            H(spec["sim"].get("reply_seed", 0), "scale0-safety-which") % 2]] = True
             oa, _, _ = mr.run(wa, spec["sim"], seed=1)
             ob, _, _ = mr.run(wb, spec["sim"], seed=1)
             counters["monitor:scale0_vs_ignored"] = 1
